@@ -88,7 +88,9 @@ def gen_cases(tier, seed):
         if deref:
             spec = [e for e in spec if e["k"] != "l" or (e["k"] == "l" and not e["target"].startswith("no/") and not e["target"].startswith("@"))]
         onecpu = r.random() < 0.08
-        yield {"mount": mount, "vanish": vanish, "onecpu": onecpu, "deref": deref, "spec": spec, "driver": driver, "updater": upd, "mode": mode, "bs": bs, "workers": 0 if onecpu or r.random() < 0.05 else r.choice([1, 2, 4, 8]), "policy": pol, "rules": rules,
+        # the same source named twice by the client: it is to be copied (and announced) once
+        dupsrc = pol in ("none", "cfr-short") and not deref and r.random() < 0.25
+        yield {"dupsrc": dupsrc, "mount": mount, "vanish": vanish, "onecpu": onecpu, "deref": deref, "spec": spec, "driver": driver, "updater": upd, "mode": mode, "bs": bs, "workers": 0 if onecpu or r.random() < 0.05 else r.choice([1, 2, 4, 8]), "policy": pol, "rules": rules,
                "plan": sch, "fs": "ext4"}
 
 
@@ -147,6 +149,8 @@ def run_case(case):
     with core.Sandbox(case["fs"], "c12") as sb:
         root = sb.root
         tree.materialize(root, case["spec"])
+        if case.get("dupsrc") and not case.get("mount"):
+            os.mkdir(os.path.join(root, "dst"))      # two source arguments need an existing directory to go into
         mp = None
         if case.get("mount"):
             mp = os.path.join(root, "dst")
@@ -172,7 +176,7 @@ def _run_case_body(case, sb, res):
             rules.append(x)
         plan = dict(case["plan"])
         plan.update({"log_mode": "full", "marker_fd": 999, "driver": case["driver"], "rules": rules, "pct_horizon": 400, "max_steps": 2000000})
-        argv = [PROBE_BIN["probe_xcp"], case["driver"], case["updater"], case["mode"], str(case["workers"]), str(case["bs"])] + (["--dereference"] if case.get("deref") else []) + (["--vanish", str(case["vanish"][0]), case["vanish"][1]] if case.get("vanish") else []) + ["--", "src", "dst"]
+        argv = [PROBE_BIN["probe_xcp"], case["driver"], case["updater"], case["mode"], str(case["workers"]), str(case["bs"])] + (["--dereference"] if case.get("deref") else []) + (["--vanish", str(case["vanish"][0]), case["vanish"][1]] if case.get("vanish") else []) + ["--", "src"] + (["src"] if case.get("dupsrc") else []) + ["dst"]
         if case.get("onecpu"):
             argv = ["taskset", "-c", "2"] + argv      # a process that may use a single CPU (container / affinity mask); workers = 0 then means 'one'
         run = core.run_supervised(sb, argv, plan)
